@@ -158,6 +158,10 @@ impl<S: Stream + Unpin> Stream for MergeUnbounded<S> {
                 }
             }
         }
+        if groups.iter().all(|g| g.streams.is_empty()) {
+            // every group drained during this call: nothing registered our waker
+            return Poll::Ready(None);
+        }
         Poll::Pending
     }
 }
